@@ -690,6 +690,12 @@ impl<'a, E: EndiannessRead, V: EncodingVersion> XTypesDeserializer<'a, E, V> {
             Ok(sequence)
         }
 
+        // The length comes from the wire. Every element occupies at least one byte, so a length
+        // beyond the remaining bytes cannot be honest and must not drive allocations or loops
+        if length > self.reader.remaining() {
+            return Err(XTypesError::NotEnoughData);
+        }
+
         let element_type = member
             .descriptor
             .r#type
@@ -972,7 +978,7 @@ impl<'a, E: EndiannessRead, V: EncodingVersion> XTypesDeserializer<'a, E, V> {
             return Ok(String::new());
         }
         let num_units = length.saturating_sub(1) as usize;
-        let mut units = Vec::with_capacity(num_units);
+        let mut units = Vec::with_capacity(num_units.min(self.reader.remaining()));
         for _ in 0..num_units {
             let unit = self.deserialize_primitive_type::<u16>()?;
             units.push(unit);
@@ -1300,6 +1306,10 @@ impl<'a> Reader<'a> {
         let ret = &self.buffer[self.pos..self.pos + length];
         self.pos += length;
         Ok(ret)
+    }
+
+    fn remaining(&self) -> usize {
+        self.buffer.len().saturating_sub(self.pos)
     }
 
     fn seek(&mut self, v: usize) -> XTypesResult<()> {
